@@ -30,6 +30,8 @@ SHAPES = {
     "len2-tkl14": (0x2E, [], [0x00, 0x00], 2, 2, 269, 2),
 }
 OVERSIZE = {
+    # declared size >= 4 GiB: must not wrap in 32-bit arithmetic
+    "len32f-wrap": (0xF0, [0xFF, 0xFF, 0xFF, 0xFF], [], 6, 0, 0, 0),
     # 32-bit form: declared 65805 + 0x00800000 > COAP_DEFAULT_MAX_PDU_RX_SIZE (8 MiB + 256)
     "len32f-over": (0xF0, [0x00, 0x80, 0x00, 0x00], [], 6, 0, 0, 0),
     "len32f-over-tkl13": (0xFD, [0x7f, 0xff, 0xff, 0xff], [0x05], 6, 1, 0, 0),
@@ -52,9 +54,10 @@ def defs(sh, k, c, oversize=False):
 def jobs():
     js = []
 
-    def mk(sn, sh, k, c, tier, oversize=False):
+    def mk(sn, sh, k, c, tier, oversize=False, rxbuf=None):
         d, T = defs(sh, k, c, oversize)
-        js.append(Job("S1-tcp@%s-k%d-c%d" % (sn, k, c), "C05/c05.c", "c05_s1_tcp_step", UNITS, extra_src=EXTRA, unit_defines=UD,
+        ud = UD if rxbuf is None else [UD[0], "COAP_RXBUFFER_SIZE=%d" % rxbuf]
+        js.append(Job("S1-tcp@%s-k%d-c%d%s" % (sn, k, c, "" if rxbuf is None else "-rxbuf%d" % rxbuf), "C05/c05.c", "c05_s1_tcp_step", UNITS, extra_src=EXTRA, unit_defines=ud,
                       defines=d, remove_bodies=["coap_dispatch", "coap_session_disconnected_lkd"], unwind=T + 12, tier=tier,
                       group="S1-tcp@" + sn, flags=["--max-field-sensitivity-array-size", "400" if T < 100 else "1400"], timeout=900,
                       desc="TCP reader, shape %s (T=%d): read(%d);read(%d) == read(%d) == reference" % (sn, T, k, c, k + c),
@@ -66,6 +69,9 @@ def jobs():
             for c in range(1, T + 2 - k + 1):
                 quick = sn == "len0-tkl0" or (k in (0, 1, 3, 5) and c in (1, 2, T - k, T + 2 - k))
                 mk(sn, sh, k, c, "quick" if quick else "thorough")
+    # reads that return exactly the receive buffer size (the reader must read again): 8-byte receive buffer
+    for (k, c) in ((0, 9), (0, 8), (1, 8), (3, 6), (0, 7)):
+        mk("len3-tkl2", SHAPES["len3-tkl2"], k, c, "quick", rxbuf=8)
     for sn in ("len8f-tkl0", "len1-tkl13"):
         sh = SHAPES[sn]
         T = sh[3] + sh[4] + sh[5] + sh[6]
@@ -87,6 +93,6 @@ def jobs():
         for k in range(0, H + TE):
             for c in range(1, H + TE + 2 - k + 1):
                 if k + c <= H + TE + 2:
-                    quick = sn == "len32f-over" and k in (1, 2, 5) and c in (1, H - k)
+                    quick = sn in ("len32f-over", "len32f-wrap") and k in (1, 5) and c in (1, H - k)
                     mk(sn, sh, k, c, "quick" if quick else "thorough", True)
     return js
